@@ -85,6 +85,10 @@ func EncodeXML(w xmlstream.TokenWriter, v interface{}) error {
 
 // EncodeXMLElement writes the XML encoding of v to the stream, using start as
 // the outermost tag in the encoding.
+// Like "encoding/xml".Encoder.EncodeElement the outermost element of the
+// encoding takes start's name and start's attributes are placed before its own
+// (a default namespace declaration of its own is dropped, the namespace is the
+// one of start's name).
 //
 // See the documentation for xml.Marshal for details about the conversion of Go
 // values to XML.
@@ -92,15 +96,16 @@ func EncodeXML(w xmlstream.TokenWriter, v interface{}) error {
 // If the stream is an xmlstream.Flusher, EncodeXMLElement calls Flush before
 // returning.
 func EncodeXMLElement(w xmlstream.TokenWriter, v interface{}, start xml.StartElement) error {
+	ew := &elementWriter{w: w, start: start}
 	if wt, ok := v.(xmlstream.WriterTo); ok {
-		_, err := wt.WriteXML(w)
+		_, err := wt.WriteXML(ew)
 		return err
 	}
 	d, err := tokenDecoder(v)
 	if err != nil {
 		return err
 	}
-	_, err = xmlstream.Copy(w, rawTokenReader{Decoder: d})
+	_, err = xmlstream.Copy(ew, rawTokenReader{Decoder: d})
 	if err != nil {
 		return err
 	}
@@ -109,4 +114,36 @@ func EncodeXMLElement(w xmlstream.TokenWriter, v interface{}, start xml.StartEle
 		return wf.Flush()
 	}
 	return nil
+}
+
+// elementWriter replaces the start and end token of every top level element
+// written to it.
+type elementWriter struct {
+	w     xmlstream.TokenWriter
+	start xml.StartElement
+	depth int
+}
+
+func (ew *elementWriter) EncodeToken(t xml.Token) error {
+	switch tok := t.(type) {
+	case xml.StartElement:
+		if ew.depth == 0 {
+			attr := make([]xml.Attr, 0, len(ew.start.Attr)+len(tok.Attr))
+			attr = append(attr, ew.start.Attr...)
+			for _, a := range tok.Attr {
+				if a.Name.Space == "" && a.Name.Local == "xmlns" {
+					continue
+				}
+				attr = append(attr, a)
+			}
+			t = xml.StartElement{Name: ew.start.Name, Attr: attr}
+		}
+		ew.depth++
+	case xml.EndElement:
+		ew.depth--
+		if ew.depth == 0 {
+			t = ew.start.End()
+		}
+	}
+	return ew.w.EncodeToken(t)
 }
